@@ -38,21 +38,22 @@
     `__call__`, tensor.py:356-361, agrees with the loop).
   * `functor_eval_type`, `functor_ty_monoidal`, `obj_to_dim_ignores_z`.
 
+  * `eval_invariant_interchange`, `eval_invariant_normal_form`: if `F(d)` is defined then
+    `F(d.interchange(i, j, left))` and `F(d.normal_form(left))` (monoidal.Diagram.normalize /
+    normal_form as modelled in Model/Diagram.lean) are the SAME tensor.  Core:
+    `tensor_layer_exchange` (two layers on disjoint wires commute, as an equality of tensors),
+    associativity of `>>`, and `functor_eval_eq_layers` on both sides.
+
   NOT PROVED as Lean theorems (oracle of harness/props/c09.py only):
-  * invariance under interchange / normal form as a statement about `Diagram.interchange` /
-    `normal_form`: the mathematical core IS proved — `tensor_layer_exchange` (two layers on
-    disjoint wires commute, as an equality of tensors) together with `functor_eval_eq_layers`
-    and the strict-monoidal laws of C08 (`then_assoc`, `tensor_monoid`, `interchange_law`,
-    unit laws: tensors form an instance of the SMC algebra of DESIGN 5.2) — but the plumbing
-    through `Diagram.interchange`'s list surgery (C05: `interchange_refines`) is not done here.
+  * invariance under the RIGID normal form (snake removal, C07) — only the monoidal
+    normalisation is covered above.
   * spiders, bubbles, sums: a spider is a generator whose array is `Tensor.spiderArray`
     (recorded in the model, covered as a generator); bubbles (`map func`) and sums
     (`Tensor.add` fold) are not part of `TFunctor.call`; the harness checks them on real code.
     `Diagram.eval` IS the call of the identity-on-arrays functor (tensor.py:429): nothing to
     prove, the harness checks it.
 -/
-import Proofs.TensorFunctor
-import Proofs.TensorExchange
+import Proofs.TensorInterchange
 import Proofs.GaussInt
 
 namespace DV.C09
@@ -119,6 +120,26 @@ theorem tensor_layer_exchange (L M Rr : List Nat) (f g : Tensor R) (hf : f.WF) (
       = Tensor.thenCore (Tensor.layerT ((L ++ f.dom) ++ M) Rr g)
           (Tensor.layerT L ((M ++ g.cod) ++ Rr) f) :=
   Tensor.layer_exchange L M Rr f g hf hg
+
+/-- **Evaluation is invariant under interchange**: if `F(d)` is defined, then
+    `F(d.interchange(i, j, left)) = F(d)` (the single-pass evaluation of both). -/
+theorem eval_invariant_interchange (F : TFunctor R) (d d' : Diagram) (i j : Int) (left : Bool)
+    (hwf : d.WF) (hgen : ∀ b ∈ d.boxes, Genuine b) (h : d.interchange i j left = .ok d')
+    (t : Tensor R) (ht : F.call d = .ok t) : F.call d' = .ok t := by
+  have p := pres_interchange F hwf (fun b hb => TFunctor.boxOK_of_genuine F b (hgen b hb)) h
+  rw [functor_eval_eq_layers F d hwf hgen] at ht
+  rw [functor_eval_eq_layers F d' p.1 (fun b hb => hgen b (p.2.1 b hb))]
+  exact p.2.2 t ht
+
+/-- **Evaluation is invariant under normalisation**: if `F(d)` is defined, then
+    `F(d.normal_form(left)) = F(d)`. -/
+theorem eval_invariant_normal_form (F : TFunctor R) (d d' : Diagram) (left : Bool) (fuel : Nat)
+    (hwf : d.WF) (hgen : ∀ b ∈ d.boxes, Genuine b) (h : d.normalForm left fuel = .ok d')
+    (t : Tensor R) (ht : F.call d = .ok t) : F.call d' = .ok t := by
+  have p := pres_normalForm F hwf (fun b hb => TFunctor.boxOK_of_genuine F b (hgen b hb)) h
+  rw [functor_eval_eq_layers F d hwf hgen] at ht
+  rw [functor_eval_eq_layers F d' p.1 (fun b hb => hgen b (p.2.1 b hb))]
+  exact p.2.2 t ht
 
 /-- The result of evaluation has the type the functor assigns to the diagram. -/
 theorem functor_eval_type (F : TFunctor R) (d : Diagram) (t : Tensor R) (h : F.call d = .ok t) :
